@@ -212,6 +212,8 @@ def c12_wclass(ty: Ty, v, f: Failure) -> str:
         if inner.prim == 'option' and v[1][0] == 'None':
             return 'option(option):Some(None)'
     if p in ('set', 'map', 'big_map'):
+        if any(_GEN.match(n) for n in _annot_names(ty.args[0])):
+            return f'names:generated-looking-annotation:{p}-key'
         w = collection_wclass(ty, v, f.info)
         if w:
             return w
